@@ -164,7 +164,7 @@ func genGlobals(pkgs []*packages.Package, mod, repo string) string {
 			}
 			pos := p.Fset.Position(o.Pos())
 			e := entry{pkg: strings.TrimPrefix(strings.TrimPrefix(p.PkgPath, mod), "/"), name: nm,
-				typ: types.TypeString(o.Type(), func(q *types.Package) string { return q.Name() }),
+				typ:    types.TypeString(o.Type(), func(q *types.Package) string { return q.Name() }),
 				refish: refish(o.Type(), map[types.Type]bool{}), line: pos.Line, file: relFile(repo, pos.Filename)}
 			rs, ws := map[string]bool{}, map[string]bool{}
 			for _, u := range uses[o] {
